@@ -3,7 +3,7 @@
    to their defaults), leaves exactly the suffix, and the same string table. *)
 From Coq Require Import NArith ZArith List Lia Bool.
 From Coq Require Import ZifyBool ZifyN ZifyNat.
-From Desert Require Import Bits Outcome IO IOProofs VarintProofs Types Calendar Codec CodecWf CodecLemmas ChronoLemmas.
+From Desert Require Import Bits Outcome IO IOProofs VarintProofs Types Calendar Codec CodecWf CodecLemmas ChronoLemmas BigDec BigDecLemmas.
 Import ListNotations.
 Open Scope N_scope.
 
@@ -232,6 +232,7 @@ Qed.
    rt_prim because simplifying `tz_known` would unfold the table of zone names *)
 Definition is_ext_prim (p : prim) : bool :=
   match p with
+  | PBigDecimal
   | PWeekday | PMonth | PFixedOffset | PTz | PDateTimeUtc | PNaiveDate | PNaiveTime | PNaiveDateTime
   | PDateTimeLocal | PDateTimeFixed | PDateTimeTz | PVarU32 | PVarI32 => true
   | _ => false
@@ -244,6 +245,13 @@ Lemma rt_prim_ext p v st b st' s k :
 Proof.
   intros Hx Hwf Henc.
   destruct p; try discriminate Hx; clear Hx; unfold wf_prim_val in Hwf; unfold enc_prim in Henc.
+  - (* BigDecimal *)
+    destruct v as [n|z|bs|tag vs]; try discriminate Hwf.
+    destruct tag; try discriminate Hwf.
+    destruct vs as [|[n1|i|b1|t1 v1] [|[n2|sc|b2|t2 v2] [|? ?]]]; try discriminate Hwf.
+    unfold dec_prim.
+    rewrite (rt_string _ _ _ _ s k (bd_render_utf8 i sc) Henc). cbn [bind].
+    rewrite (bd_roundtrip_normal _ _ Hwf), (bd_normal_norm _ _ Hwf). reflexivity.
   - (* Weekday *)
     destruct v as [n|z|bs|tag vs]; try discriminate Hwf.
     apply ok_pair_inj in Henc as [<- <-]. unfold dec_prim.
